@@ -242,9 +242,18 @@ func init() {
 		Assumptions: []string{"modes that fail are not compared, as the property states", "results are compared with the value canon (numeric kind included)"},
 		Phases: []runner.Phase{
 			{Name: "corpus", N: func(string) uint64 { return uint64(len(corpus)) }, Run: func(c *runner.Ctx, idx uint64) {
-				styles, seeds := EnvStyles(c.R, 6)
+				styles, seeds := EnvStyles(c.R, 4)
 				for i := range styles {
 					c15Case(c, corpus[idx], styles[i], seeds[i])
+				}
+				// every targeted value set (k = 0..4: small ints, fractional
+				// floats inside the literal ranges and arrays of the corpus)
+				for k := uint64(0); k < 5; k++ {
+					seed := k << 8
+					for seed%3 != 0 {
+						seed++
+					}
+					c15Case(c, corpus[idx], 3, seed)
 				}
 			}},
 			{Name: "random", N: func(tier string) uint64 {
